@@ -30,6 +30,8 @@ func NewTrackStakeChangesDecorator(rk keeper.Keeper, sk types.StakingKeeper) Tra
 func (t TrackStakeChangesDecorator) AnteHandle(ctx sdk.Context, tx sdk.Tx, simulate bool, next sdk.AnteHandler) (sdk.Context, error) {
 	// loop through all the messages and check if the message type will change stake by more than 5%
 	var msgAmount math.Int
+	// the bound applies to all staking messages of the transaction together
+	totalIncrease, totalDecrease := math.ZeroInt(), math.ZeroInt()
 	for _, msg := range tx.GetMsgs() {
 		switch msg := msg.(type) {
 		case *stakingtypes.MsgCreateValidator:
@@ -63,6 +65,13 @@ func (t TrackStakeChangesDecorator) AnteHandle(ctx sdk.Context, tx sdk.Tx, simul
 		currentAmount, err := t.stakingKeeper.TotalBondedTokens(ctx)
 		if err != nil {
 			return ctx, err
+		}
+		if msgAmount.IsNegative() {
+			totalDecrease = totalDecrease.Add(msgAmount)
+			msgAmount = totalDecrease
+		} else {
+			totalIncrease = totalIncrease.Add(msgAmount)
+			msgAmount = totalIncrease
 		}
 		changeAmt := currentAmount.Add(msgAmount)
 		if msgAmount.IsNegative() {
